@@ -429,6 +429,11 @@ func unmarshalDynamic(buf []byte, path cty.Path) (cty.Value, error) {
 		return cty.NilVal, path.NewErrorf("missing value in dynamically-typed value")
 	}
 
+	// The type descriptor is data, so it can carry optional attribute
+	// annotations. Those are meaningful only in conversion targets and must
+	// never be part of the type of a value.
+	t = t.WithoutOptionalAttributesDeep()
+
 	val, err := Unmarshal([]byte(valBody), t)
 	if err != nil {
 		return cty.NilVal, path.NewError(err)
